@@ -116,7 +116,8 @@ def create_context(txt, offset, length):
     return  {
         'text': '...' + s + '...',
         'offset': offset - beg + 3,
-        'length': length,
+        # NB: do not mark beyond the excerpt
+        'length': min(length, end - offset),
     }
 
 #   construct message element for a match from re.finditer()
